@@ -51,13 +51,14 @@ DEBUG_ONLY_KINDS = {'int_abs'}
 
 
 class PSite:
-    __slots__ = ('body', 'bb', 'kind', 'desc', 'line', 'data', 'callee')
+    __slots__ = ('body', 'bb', 'kind', 'desc', 'cdesc', 'line', 'data', 'callee')
 
-    def __init__(self, body, bb, kind, desc, line, data, callee=None):
+    def __init__(self, body, bb, kind, desc, line, data, callee=None, cdesc=None):
         self.body = body
         self.bb = bb
         self.kind = kind
         self.desc = desc
+        self.cdesc = cdesc if cdesc is not None else desc   # desc with the body's local variable names replaced by `$`
         self.line = line
         self.data = data
         self.callee = callee
@@ -67,6 +68,40 @@ class PSite:
 
     def key(self):
         return (self.body.npath, self.kind, self.desc)
+
+    def ckey(self):
+        return (self.body.npath, self.kind, self.cdesc)
+
+
+def local_name_re(body):
+    """Regex matching the user-chosen local variable names visible in a body (its own named non-parameter locals and
+    the variables it captures), as whole identifiers that are not field names, path segments or callees."""
+    names = set()
+    b = body
+    raw = body.raw
+    for i, l in enumerate(raw['locals']):
+        if i > raw['arg_count'] and l.get('name') and l['name'] != 'self':
+            names.add(l['name'])
+    def walk(x):
+        if isinstance(x, dict):
+            f = x.get('f')
+            if isinstance(f, str) and f.startswith('^'):
+                root = f[1:].split('__')[0]
+                if root != 'self':
+                    names.add(root)
+            for v in x.values():
+                walk(v)
+        elif isinstance(x, list):
+            for v in x:
+                walk(v)
+    walk(raw['blocks'])
+    if not names:
+        return None
+    return re.compile(r'(?<![\w.:$])(?:%s)(?![\w(]|::)' % '|'.join(sorted((re.escape(n) for n in names), key=len, reverse=True)))
+
+
+def canon(rx, s):
+    return rx.sub('$', s) if rx is not None else s
 
 
 def trusted_macro(mac):
@@ -96,6 +131,7 @@ def panic_sites(body):
     """All panic-capable constructs in a body (excluding trusted macro expansions)."""
     out = []
     reach = body.reachable_avoiding(None)
+    rx = local_name_re(body)
     for j, blk in enumerate(body.blocks):
         if blk['cleanup'] or j not in reach:
             continue
@@ -107,11 +143,14 @@ def panic_sites(body):
             if msg in ('ResumedAfterReturn', 'ResumedAfterPanic', 'ResumedAfterDrop', 'Misaligned', 'NullDeref', 'InvalidEnum'):
                 continue
             ops = [S(body.operand_term(o)) for o in t['ops']]
+            cops = [canon(rx, o) for o in ops]
             if msg == 'BoundsCheck':
                 desc = 'BoundsCheck[%s < %s]' % (ops[1], ops[0])
+                cdesc = 'BoundsCheck[%s < %s]' % (cops[1], cops[0])
             else:
                 desc = '%s[%s]' % (msg, ', '.join(ops))
-            out.append(PSite(body, j, 'assert:' + msg, desc[:240], t['line'], t))
+                cdesc = '%s[%s]' % (msg, ', '.join(cops))
+            out.append(PSite(body, j, 'assert:' + msg, desc[:240], t['line'], t, cdesc=cdesc[:240]))
         elif t['k'] == 'call':
             f = t['func']
             if f['k'] == 'const' and 'fn' in f:
@@ -120,14 +159,14 @@ def panic_sites(body):
                 if kind is None:
                     continue
                 args = [S(body.operand_term(a)) for a in t['args']]
-                if kind in ('panic', 'assert'):
-                    desc = '%s(%s)' % (short_name(fi['def']), (args[0] if args else '')[:100])
-                elif kind == 'index':
-                    st = fi.get('self_ty', '')
-                    desc = 'index %s[%s]' % (args[0][:100], args[1][:100] if len(args) > 1 else '')
-                else:
-                    desc = '%s(%s)' % (short_name(callee_name(fi)), ', '.join(a[:90] for a in args))
-                out.append(PSite(body, j, kind, desc[:240], t['line'], t, fi))
+                cargs = [canon(rx, a) for a in args]
+                def fmt(args):
+                    if kind in ('panic', 'assert'):
+                        return '%s(%s)' % (short_name(fi['def']), (args[0] if args else '')[:100])
+                    if kind == 'index':
+                        return 'index %s[%s]' % (args[0][:100], args[1][:100] if len(args) > 1 else '')
+                    return '%s(%s)' % (short_name(callee_name(fi)), ', '.join(a[:90] for a in args))
+                out.append(PSite(body, j, kind, fmt(args)[:240], t['line'], t, fi, cdesc=fmt(cargs)[:240]))
     return out
 
 
@@ -575,19 +614,27 @@ class Audit:
     def __init__(self, path):
         self.path = path
         self.entries = {}
+        self.centries = {}
         self.used = defaultdict(int)
         if os.path.exists(path):
             with open(path) as f:
                 data = json.load(f)
             for e in data.get('entries', []):
                 self.entries[(e['fn'], e['kind'], e['desc'])] = e
+                if e.get('cdesc'):
+                    self.centries[(e['fn'], e['kind'], e['cdesc'])] = e
 
     def lookup(self, site):
-        e = self.entries.get(site.key())
+        # entries are matched on the name-free form of the expression (local variable names replaced by `$`), so that
+        # renaming a local variable does not re-open an audited site; the readable form is kept for reports
+        e = self.centries.get(site.ckey())
+        if e is None:
+            e = self.entries.get(site.key())
         if e is None:
             return None
-        self.used[site.key()] += 1
-        if self.used[site.key()] > e.get('count', 1):
+        k = id(e)
+        self.used[k] += 1
+        if self.used[k] > e.get('count', 1):
             return None
         return e
 
